@@ -6,6 +6,9 @@ import os
 V = os.path.dirname(os.path.dirname(os.path.abspath(__file__)))
 
 CHECKS = {
+    "C04": dict(cat="model_checking", ref="§3.5, §4 C04", tech="TLA+ Obj.tla (+ObjBase) model-checked by TLC; every generated transition replayed on real objects of ~30 kinds x 9 key mappings (edge replay)",
+                text="TLC exhaustively explores Obj.tla — ECMA-262 ordinary-object internal methods incl. ValidateAndApplyPropertyDescriptor over all 729 descriptor shapes, OrdinarySet with every receiver, own-key order, integrity levels, prototype surgery — checking the essential invariants (Essential, NoGrow, OrderOK, Frame) on the model; every transition is then replayed on real goja objects of each kind (plain, function kinds, class, arrays for non-index keys, arguments, String, typed array, Error/Date/RegExp/Map/Promise, lazily materialised Math/JSON, global object) with each key mapping (string, symbol, index, 2^32-1, '-0', fractional, unicode) and each issuer (Object.*, Reflect.*, sloppy/strict syntax, Go API), comparing result and full descriptor/extensibility/prototype/key-order projection after every step.",
+                note="Trusts TLC, the JS adaptor (harness/adaptors/obj.js) running inside goja, and the natives for the Go-API issuer. Bounds: 1-3 objects, 1 key (6 for ordering), values {v1,v2,undefined}, one getter/setter function. Exotic index/length behaviour is covered by ObjArray/ObjTyped/ObjArgs/ObjString configs as they are added."),
     "C18": dict(cat="model_checking", ref="§3.7, §4 C18", tech="TLA+ OMap.tla model-checked by TLC; every generated transition replayed on real Map/Set objects (edge replay) + refinement invariant against ECMA-262's list-with-emptied-slots",
                 text="TLC exhaustively explores OMap.tla (insertion-ordered SameValueZero dictionary with live cursors) under small constants, checks NoDup/PosOK/Yielded and that the compact model refines ECMA-262's literal List-with-empty-slots formulation; every transition TLC generates is then replayed on real goja Map and Set objects along tours from a fresh object, comparing each result, the full entry list, size and the hidden orderedMap link/hash structure.",
                 note="Trusts TLC, the JS adaptor (harness/adaptors/omap.js) running inside goja itself, and the white-box accessor. Bounds: 3-4 abstract keys x 2 representations, <=3-4 live entries, 2-3 cursors; forEach with mutating callbacks only via iterator equivalence."),
